@@ -197,6 +197,8 @@ func genTraceScenarios(c *fw.Ctx, n int, emit func(*traceScenario)) {
 			{text: "Body any", msg: "incorrect context"},
 			{text: "SERVER @s\n  BaseUrl \"http://b\"", msg: "has already been declared", pre: "SERVER @s\n  BaseUrl \"http://a\"", dup: true},
 			{text: "FOO bar"},
+			{text: "URL /dupp/{id}/{id}\n  GET\n    Path\n      {\"id\": 1}\n    200 any", msg: "duplicated"},
+			{text: "URL /empp/{id}/x/{}\n  DELETE\n    Path\n      {\"id\": 1}\n    204 empty", msg: "empty PATH parameter"},
 			{text: "GET /dupi\n  200 any", pre: "GET /dupi\n  200 any", off: -1},
 			{text: "TAG @tg", pre: "TAG @tg", off: -1},
 			{text: "ENUM @en\n  [1, 1]", off: -1},
